@@ -21,7 +21,13 @@ var (
 	intPool   = []int64{0, 1, -1, 2, 3, 7, -3, 10, 60, math.MinInt64, math.MaxInt64}
 	floatPool = []float64{0, math.Copysign(0, -1), 1, -1, 2, 3, 7, -1.5, 2.5, 10, 0.1, math.NaN(), math.Inf(1), math.Inf(-1), 1e19, -1e19, 9007199254740993}
 	strPool   = []string{"", "a", "abc", "b", "é", "日本", "😀", "a😀b", "éa", "a b", "Zz", "abcabc", "true", "12", "1s",
-		strings.Repeat("д", 33), strings.Repeat("aд", 50), strings.Repeat("x", 40), "ab\xffc", "  pad  "}
+		strings.Repeat("д", 33), strings.Repeat("aд", 50), strings.Repeat("x", 40), "ab\xffc", "  pad  ",
+		"\ufffdé\xe2\x82z\ufffd", "日aé日", "\xc3é\xa9"}
+	// cutsets / character sets of the rune-set functions: empty, one ASCII byte, several ASCII bytes, multi-byte runes (2, 3, 4 bytes),
+	// mixed, a literal U+FFFD, invalid bytes (a lone lead byte, a lone continuation byte, a truncated 3-byte rune) - an invalid
+	// byte in the set is the rune U+FFFD and matches every invalid byte and every literal U+FFFD of the string
+	cutPool = []string{"", "a", " ", "ab", "cba", "é", "д", "日", "😀", "aé", "日本", "é日😀", "aд", "\ufffd", "\xff", "\xc3", "\xa9", "\xe2\x82", "z\ufffd",
+		"abcdefghij", "éдaz 日"}
 	numStrPool = []string{"12", "-5", "+7", "0", "9223372036854775807", "9223372036854775808", "-9223372036854775808", "-9223372036854775809",
 		"1_0", "", "abc", "1.5", " 1", "true", "T", "false", "F", "1", "TRUE", "tRuE", "0x10"}
 	asciiPool = []string{"", "a", "abc", "hello", "abcabc"}
@@ -128,8 +134,8 @@ func (g *gen) expr(ty string, depth int) *ex {
 			g.used[n] = true
 			return call("isPresent", ref(n))
 		case 9:
-			if r.Chance(1, 5) {
-				return call("strContainsAny", g.leaf("string"), g.leaf("string")) // library oracle: leaf arguments only
+			if r.Chance(1, 4) {
+				return call("strContainsAny", g.strArg(d), g.cutArg())
 			}
 			return call(kit.Pick(r, []string{"strContains", "strHasPrefix", "strHasSuffix"}), g.strArg(d), g.subArg())
 		case 10:
@@ -160,8 +166,8 @@ func (g *gen) expr(ty string, depth int) *ex {
 		case 8:
 			return call("if", g.expr("bool", d), g.expr("int", d), g.expr("int", d))
 		default:
-			if r.Chance(1, 6) {
-				return call(kit.Pick(r, []string{"strIndexAny", "strLastIndexAny"}), g.leaf("string"), g.leaf("string"))
+			if r.Chance(1, 4) {
+				return call(kit.Pick(r, []string{"strIndexAny", "strLastIndexAny"}), g.strArg(d), g.cutArg())
 			}
 			return call(kit.Pick(r, []string{"strIndex", "strLastIndex", "strCount"}), g.strArg(d), g.subArg())
 		}
@@ -198,13 +204,16 @@ func (g *gen) expr(ty string, depth int) *ex {
 			if r.Bool() {
 				return call("string", g.leaf(kit.Pick(r, []string{"int", "bool", "duration", "string", "float"}))) // float argument: library oracle, so a leaf
 			}
-			return call(kit.Pick(r, []string{"strToUpper", "strTrimSpace", "string", "strTrim"}), g.leaf(kit.Pick(r, []string{"string", "string", "float"})))
+			return call(kit.Pick(r, []string{"strToUpper", "strTrimSpace", "string"}), g.leaf(kit.Pick(r, []string{"string", "string", "float"})))
 		case 4:
 			if r.Bool() {
 				return call("strReplace", g.strArg(d), g.subArg(), g.leaf("string"), kit.Pick(r, []*ex{lit(int64(-1)), lit(int64(0)), lit(int64(1)), lit(int64(2)), lit(int64(100)), g.ref("int")}))
 			}
 			return call("if", g.expr("bool", d), g.expr("string", d), g.expr("string", d))
 		default:
+			if r.Chance(1, 2) {
+				return call(kit.Pick(r, []string{"strTrim", "strTrimLeft", "strTrimRight"}), g.strArg(d), g.cutArg())
+			}
 			return call(kit.Pick(r, []string{"strTrimPrefix", "strTrimSuffix"}), g.strArg(d), g.subArg())
 		}
 	case "duration":
@@ -385,7 +394,14 @@ func (g *gen) directed(i int) (*ex, string, string, int) {
 		num := kit.Pick(r, []*ex{i64(), g.ref("duration"), g.ref("int")})
 		return bin("gt", bin(kit.Pick(r, []string{"div", "mod"}), num, den), lit(int64(1))), "bool", "pred", 40
 	case 5: // strSubstring / index functions at the byte-length and rune-count boundaries of multi-byte strings
-		if r.Chance(2, 3) {
+		switch r.Intn(6) {
+		case 0: // rune-set functions: members at both ends, multi-byte and invalid-byte cutsets
+			return call(kit.Pick(r, []string{"strTrim", "strTrimLeft", "strTrimRight"}), g.strArg(0), g.cutArg()), "string", "", 10
+		case 1:
+			return call(kit.Pick(r, []string{"strIndexAny", "strLastIndexAny"}), g.strArg(0), g.cutArg()), "int", "", 10
+		case 2:
+			return call("strContainsAny", g.strArg(0), g.cutArg()), "bool", "", 10
+		case 3, 4:
 			return g.substr(), "string", "", 10
 		}
 		return call(kit.Pick(r, []string{"strIndex", "strLastIndex", "strCount"}), g.strArg(0), g.subArg()), "int", "", 10
@@ -475,6 +491,20 @@ func (g *gen) subArg() *ex {
 		j = i + 4
 	}
 	return lit(s[i:j])
+}
+
+// cutArg: the cutset / character-set argument of strTrim*, str*Any: a pool cutset (ASCII, multi-byte, invalid bytes), runes or single
+// bytes cut from a pool string (so that members occur in the strings), or any string leaf.
+func (g *gen) cutArg() *ex {
+	r := g.r
+	switch r.Intn(4) {
+	case 0:
+		return g.leaf("string")
+	case 1:
+		return g.subArg()
+	default:
+		return lit(kit.Pick(r, cutPool))
+	}
 }
 
 // substr: strSubstring on a string with indexes at 0, 1, n-1, n, n+1 for n = byte length and n = rune count, negatives, 33.
